@@ -2,3 +2,4 @@ LINK := full
 KITS := chainkit
 SCHED := 1
 TSAN_SRCS := scheduler.cpp validationinterface.cpp
+AUX_TSAN := aux/tsan_free.cpp
